@@ -12,6 +12,14 @@ TRUST = ('Trusted base: rustc nightly THIR/MIR for this source (same cfgs as the
          'the evidence file.')
 
 CHECKS = {
+    'C04': {
+        'technique': 'typed who-may-write census on Channel.users / User.channels, caller census of the Channel mutators, pairing by path-condition equivalence under one write guard, sibling agreement over the rank methods, PART emission conditions, reader provenance',
+        'level': ('Decides structurally that the membership relation is written only by the Channel mutators and the two User.channels '
+                  'sites, always on both sides together, re-keyed completely on NICK, that rank flags and rank sets are kept in step by '
+                  'all sibling methods, that PART is announced to every member (the departing one included) exactly when accepted, and '
+                  'that NAMES/WHO/WHOIS read only that relation.'),
+        'note': TRUST + ' The behavioural roster-reconstruction statement is the consequence of these structural facts; it is not observed.',
+    },
     'C06': {
         'technique': 'must-pass-through over the connection task (event order + exits census), must-exist checks for quit.store per termination cause, typed container census with frozen classification, removal-site census over the inlined teardown, condition equivalence for channel deletion',
         'level': ('Decides that every path of the connection task reaches teardown, that each termination cause sets the quit flag, '
